@@ -160,11 +160,17 @@ def gen_driver(facts, cfg, include_source=True):
     w('template <class T, class = void> struct has_locator : std::false_type {};')
     w('template <class T> struct has_locator<T, decltype((void)std::declval<T&>().Locator())> : std::true_type {};')
     log_arg = 'log_, ' if mcport else ''
-    w(f'struct Fix {{ Env env; {sns}::ILog log_; std::unique_ptr<Shell> sh; Comp* comp = nullptr; dzn::pump* pump = nullptr;' if mcport
-      else 'struct Fix { Env env; std::unique_ptr<Shell> sh; Comp* comp = nullptr; dzn::pump* pump = nullptr;')
+    # REPRESENTATION: the fixture hands the shell a TEMPORARY logger, brace-initialised with three functors (the form of
+    # "Example 1" in the generated header) - the shell has to keep its own copy; the instance name is a temporary
+    # std::string as well
+    w('static long g_log_calls = 0;')
+    temp_log = (f'{sns}::ILog{{[](const std::string&){{ ++g_log_calls; }}, [](const std::string&){{ ++g_log_calls; }}, '
+                '[](const std::string&){ ++g_log_calls; }}, ') if mcport else ''
+    w('struct Fix { Env env; std::unique_ptr<Shell> sh; Comp* comp = nullptr; dzn::pump* pump = nullptr;')
     w(f'  Fix() : env({"false, false, true" if create else "true, true, true"}) {{')
     w('    verif::registry().reset();')
-    w(f'    sh.reset(new Shell(env.user_loc, {log_arg}"inst"));')
+    w(f'    sh.reset(new Shell(env.user_loc, {temp_log}std::string("in") + "st"));')
+    w('    verif::scrub_stack();')
     w('    comp = static_cast<Comp*>(verif::registry().component);')
     if create:
         w('    pump = &sh->Locator().template get<dzn::pump>();')
@@ -364,7 +370,8 @@ def gen_driver(facts, cfg, include_source=True):
     w('      bool thrown = throws([&]{ fx.sh->FinalConstruct(&parent); }, what, &is_rt);')
     w('      verif::emit("C10", "unbound-detected", binding_name(k, ncl) + "/clients=" + std::to_string(ncl), thrown && is_rt, what);')
     w('      // a second attempt with the event still unbound must fail as well (no state may survive the exception)')
-    w('      bool again = throws([&]{ fx.sh->FinalConstruct(&parent); }, what, &is_rt);')
+    w('      // (REPRESENTATION: the retry uses the other form of the call - the parent argument omitted)')
+    w('      bool again = throws([&]{ fx.sh->FinalConstruct(); }, what, &is_rt);')
     w('      verif::emit("C10", "unbound-detected-on-retry", binding_name(k, ncl) + "/clients=" + std::to_string(ncl), again, what);')
     w('    }')
     w('    { Fix fx; bind_all(*fx.sh, *fx.comp, *fx.pump, -1, ncl); std::string what;')
